@@ -4,6 +4,25 @@ import GoframeModel.Spec.Resample
 namespace Goframe.Driver
 open Goframe
 
+/-- `Spec.resampleSpec` with the truncation supplied from outside: for timestamps of a location with daylight-saving
+transitions the bucket start is `time.Date(y, m, d, …, loc)` as the Go standard library computes it (the harness
+sends that table); the Lean model's own `truncate` is for fixed-offset locations only -/
+def resampleSpecWith (tr : GoTime → GoTime) (ω : Oracle) (f : Frame) (k : Str) (freq : Str) (agg : AggFn) : Option Frame :=
+  if !f.has k then none
+  else match parseFreq freq with
+    | none => none
+    | some _ =>
+      let rows := Spec.rowsOf f
+      let ts := rows.map (fun r => Spec.timeOf (Row.getD r k))
+      if ts.any Option.isNone then none
+      else
+        let bucketOf (r : Row) : Option GoTime := (Spec.timeOf (Row.getD r k)).map tr
+        let bs := Spec.bucketsAsc (rows.filterMap bucketOf)
+        some (Spec.ofRows f.keys (bs.map (fun b =>
+          f.keys.map (fun c =>
+            if c == k then (c, Cell.time b)
+            else (c, agg.eval ω ((rows.filter (fun r => bucketOf r == some b)).map (fun r => Row.getD r c)))))))
+
 def checkRsm : P String := do
   let tab ← pOracle
   let ω := tab.toOracle
@@ -21,20 +40,35 @@ def checkRsm : P String := do
   let ndiff ← pNat
   expect "AFTER"
   let after ← pFrame
+  -- daylight-saving location: bucket starts from the standard library's own time.Date (table sent by the harness)
+  let mut trTable : List (GoTime × GoTime) := []
+  let dst := (← peek?) == some "TR"
+  if dst then
+    let _ ← next
+    trTable ← pList (do
+      let a ← pCell
+      let b ← pCell
+      match a, b with
+      | .time x, .time y => pure (x, y)
+      | _, _ => throw "TR expects times")
+  let tbl := trTable
+  let trF : GoTime → GoTime := fun t => ((tbl.find? (fun p => p.1 == t)).map (·.2)).getD t
   let mut c18 := "ok"
   let mut corr := "ok"
   if st == "panic" then c18 := "fail:panic"
-  match Spec.resampleSpec ω f col freq agg, res with
+  let expected := if dst then resampleSpecWith trF ω f col freq agg else Spec.resampleSpec ω f col freq agg
+  match expected, res with
   | some e, some x => if !frameApprox e x then c18 := firstFail c18 "fail:buckets"
   | none, none => pure ()
   | some _, none => c18 := firstFail c18 "fail:spurious-error"
   | none, some _ => c18 := firstFail c18 "fail:invalid-request-accepted"
   if ndiff != 0 then c18 := firstFail c18 s!"fail:{ndiff}-of-{reps}-repeats-differ"
   if after != f then c18 := firstFail c18 "fail:source-changed"
-  match f.resample ω col freq agg, res with
-  | .ok e, some x => if !frameApprox e x then corr := "fail:frame-differs"
-  | .err _, none => if st != "err" then corr := "fail:status"
-  | _, _ => corr := "fail:status"
+  if !dst then
+    match f.resample ω col freq agg, res with
+    | .ok e, some x => if !frameApprox e x then corr := "fail:frame-differs"
+    | .err _, none => if st != "err" then corr := "fail:status"
+    | _, _ => corr := "fail:status"
   let nb := match res with
     | some x => x.nrows
     | none => 0
